@@ -16,7 +16,9 @@ for mp in sorted(glob.glob(os.path.join(HERE, "seeded", "*", "meta.json"))):
     caught = [f"{p} ({c['first_violations'][0].split(':')[0] if c['first_violations'] else 'exit 1'})"
               for p, c in m.get("checks", {}).items() if c["exit"] == 1]
     silent = [p for p, c in m.get("checks", {}).items() if c["exit"] == 0]
+    caught += [f"{p} thorough tier only ({c['first_violation'].split(':')[0]})"
+               for p, c in m.get("thorough_tier", {}).items() if c["exit"] == 1]
     rows.append(f"| {m['name']} | {what.replace('|', '/')} | {', '.join(caught) or '-'} | {', '.join(silent) or '-'} |")
-print("| seeded change | what it does (author's notes, first line) | reported by (quick tier) | also run, silent |")
+print("| seeded change | what it does (author's notes, first line) | reported by (quick tier unless stated) | also run, silent |")
 print("|---|---|---|---|")
 print("\n".join(rows))
